@@ -44,8 +44,10 @@ type behaviour struct {
 }
 
 func (b behaviour) String() string {
-	return fmt.Sprintf("status=%d hdr=%d body=%d mode=%s", b.status, b.hdr, b.body, []string{"plain", "flush", "hijack", "early-hints"}[b.mode])
+	return fmt.Sprintf("status=%d hdr=%d body=%d mode=%s", b.status, b.hdr, b.body, modeNames[b.mode])
 }
+
+var modeNames = []string{"plain", "flush", "hijack", "early-hints", "flush-first"}
 
 func behaviours() []behaviour {
 	var out []behaviour
@@ -57,7 +59,10 @@ func behaviours() []behaviour {
 		}
 	}
 	out = append(out, behaviour{200, 1, 2, 1}, behaviour{0, 0, 2, 1}, behaviour{200, 0, 0, 2},
-		behaviour{404, 1, 1, 3}, behaviour{500, 0, 2, 3}, behaviour{0, 0, 1, 3})
+		behaviour{404, 1, 1, 3}, behaviour{500, 0, 2, 3}, behaviour{0, 0, 1, 3},
+		// the handler's FIRST action on the writer is Flush (an event stream opening: headers set, implicit 200 pushed
+		// out), followed by a superfluous WriteHeader(500) that net/http ignores because the response is committed
+		behaviour{0, 1, 1, 4}, behaviour{0, 0, 2, 4})
 	return out
 }
 
@@ -137,6 +142,10 @@ func (w *world) inner() http.Handler {
 			rw.Header().Set("Link", "</style.css>; rel=preload")
 			rw.WriteHeader(http.StatusEarlyHints) // informational: the final status is still to come
 			rw.Header().Del("Link")
+		}
+		if b.mode == 4 && isFl {
+			fl.Flush()
+			rw.WriteHeader(http.StatusInternalServerError)
 		}
 		if b.status != 0 {
 			rw.WriteHeader(b.status)
@@ -487,6 +496,9 @@ func runStack(w *world, ks []string, verbose bool, base map[behaviour]result, re
 		}
 	}
 	for _, b := range behaviours() {
+		if b.mode == 4 && hasBuffer {
+			continue // below a buffer nothing is committed before the handler returns
+		}
 		w.reset(b)
 		early := ""
 		if b.mode == 1 {
@@ -496,7 +508,7 @@ func runStack(w *world, ks []string, verbose bool, base map[behaviour]result, re
 		rep.Evaluations++
 		want := base[b]
 		what := map[string]any{"engine": "enum", "part": "c20", "stack": strings.Join(ks, ">"), "verbose": verbose, "behaviour": b.String(), "mode": "transparent"}
-		cls := []string{"plain", "flush", "hijack", "early-hints"}[b.mode]
+		cls := modeNames[b.mode]
 		if b.status == 0 {
 			cls += "+implicit-status"
 		}
@@ -536,6 +548,9 @@ func runStack(w *world, ks []string, verbose bool, base map[behaviour]result, re
 			}
 			if b.mode == 3 {
 				rep.Count("early_hints_exchanges")
+			}
+			if b.mode == 4 {
+				rep.Count("exchanges_opened_with_a_flush")
 			}
 			continue
 		}
@@ -742,7 +757,7 @@ func Run(tier string, sh lib.Shard, rep *lib.Report) {
 	rep.Bounds["handler_behaviours"] = len(behaviours())
 	rep.Rule = "every stack of depth <= max over {stream, trace, connlimit, ratelimit, cbreaker, roundrobin, rebalancer(roundrobin), buffer} x every handler behaviour (status incl. implicit x header set x body chunking, flush between writes, hijack) served by a real net/http server to a raw TCP client, compared with the bare handler on the same server; every stack also in front of a minimal ResponseWriter (no Hijacker/Flusher/CloseNotifier) with a handler that probes for those capabilities; per stack and position one configuration in which exactly that middleware intervenes; non-trivial = exchanges through stacks of depth >= 2"
 	rep.Assume("frozen clock; Content-Length/Transfer-Encoding framing headers chosen by net/http are not compared unless the handler set Content-Length itself")
-	rep.Require("transparent_exchanges", "interventions_checked", "streamed_chunks_observed_early", "hijacked_exchanges", "early_hints_exchanges", "exchanges_on_a_minimal_writer", "head_exchanges")
+	rep.Require("transparent_exchanges", "interventions_checked", "streamed_chunks_observed_early", "hijacked_exchanges", "early_hints_exchanges", "exchanges_opened_with_a_flush", "exchanges_on_a_minimal_writer", "head_exchanges")
 	w := newWorld()
 	defer w.srv.Close()
 	base := baseline(w, rep)
